@@ -4,6 +4,7 @@ def b_TrafficSign_create_ref_node : CR.SrcW.Builder where
   kind := .node
   tag := "trafficSignRef"
   xsd := "trafficSignRef"
+  path := []
   parent := ""
   attrs := [("ref", (.str "_"))]
   gattrs := []
